@@ -422,8 +422,11 @@ class WorkerPool:
         raise ValueError('No worker is available.')
     # Always set blocking to True as run is blocking.
     task = Task.maybe_as_task(task).set(blocking=True)
-    result = worker.submit(task).result()
-    worker.release()
+    try:
+      result = worker.submit(task).result()
+    finally:
+      # Also releases the worker when the task fails.
+      worker.release()
     return result
 
   def iterate(
